@@ -842,9 +842,17 @@ pub fn ext_case() -> BoxedStrategy<ExtCase> {
         1 => Just(nudge(1.0, 1)),
         1 => Just(-1e-45f32),
         1 => prop_oneof![Just(1e30f32), Just(-1e30f32), Just(f32::INFINITY), Just(f32::NEG_INFINITY)],
+        // an interior join k/n (replaced below by the exact f32 quotient for the case's segment count)
+        5 => (1u32..=3).prop_map(|k| -100.0 - k as f32),
     ];
     (ty, 1usize..=4, proptest::collection::vec(proptest::array::uniform3(ext_coord()), 13), t)
         .prop_map(|(ty, n, raw, t)| {
+            let t = if t <= -100.0 {
+                let k = ((-t - 100.0) as usize).min(n.saturating_sub(1));
+                if k == 0 { 0.0 } else { k as f32 / n as f32 }
+            } else {
+                t
+            };
             let nc = ncomp(ty);
             let pts = raw[..3 * n + 1]
                 .iter()
@@ -867,9 +875,17 @@ fn check_ext_t<T: Pt>(c: &ExtCase, obs: &mut Obs) -> Check {
     ensure!(pts.len() >= 4 && pts.len() % 3 == 1 && pts.len() <= 13, "bad-case", "control point count {} is not 3n+1 with 1 <= n <= 4", pts.len());
     ensure!(pts.iter().flatten().all(|c| !c.is_nan()), "bad-case", "NaN control coordinate");
     let t = c.t.0;
-    ensure!(t <= 0.0 || t >= 1.0, "bad-case", "only parameters at or beyond the ends are asserted here");
     let last = pts.len() - 1;
     let n = last / 3;
+    // interior parameters are asserted only at joins the spline hits exactly: t * n, computed in f32 as the library's
+    // segment selection does, is an integer k in 1..n, so the local parameter of segment k is exactly 0
+    let join = if t > 0.0 && t < 1.0 {
+        let x = t * n as f32;
+        ensure!(x.fract() == 0.0 && x >= 1.0 && (x as usize) < n, "bad-case", "only parameters at or beyond the ends, or exactly at a join, are asserted here");
+        Some(x as usize)
+    } else {
+        None
+    };
     let tpts: Vec<T> = pts.iter().map(|p| T::make(*p)).collect();
     let cb = CubicBezier([tpts[0].clone(), tpts[1].clone(), tpts[2].clone(), tpts[3].clone()]);
     let (ev, fe) = match catch(|| (cb.eval(t).comps(), cb.fast_eval(t).comps())) {
@@ -884,8 +900,23 @@ fn check_ext_t<T: Pt>(c: &ExtCase, obs: &mut Obs) -> Check {
         Ok(r) => r,
         Err(e) => fail!("spline-panic", "BezierSpline<{}> ({n} segments) eval panicked at t={t:?}: {e}", c.ty),
     };
-    let (want_b, want_s, which) = if t <= 0.0 { (pts[0], pts[0], "first") } else { (pts[3], pts[last], "last") };
     let same = |a: f32, b: f32| a == b; // +0 and -0 are the same point
+    if let Some(j) = join {
+        for k in 0..nc {
+            ensure!(
+                same(sv[k], pts[3 * j][k]),
+                "join-not-exact",
+                "spline eval({t:?}) component {k} = {:?}: t * {n} is exactly {j}, so the value is control point {} = {:?} whatever the neighbouring control points are ({:?})",
+                sv[k], 3 * j, pts[3 * j][k], &pts[3 * j..(3 * j + 4).min(pts.len())]
+            );
+        }
+        obs.class(type_class(&c.ty));
+        obs.class(SEGS_CLASS[n]);
+        obs.class("ext:t exactly at an interior join");
+        obs.nontrivial(hash_of(&(&c.ty, &c.pts, &c.t)));
+        return Ok(());
+    }
+    let (want_b, want_s, which) = if t <= 0.0 { (pts[0], pts[0], "first") } else { (pts[3], pts[last], "last") };
     for k in 0..nc {
         ensure!(same(ev[k], want_b[k]), "end-not-exact", "eval({t:?}) component {k} = {:?}, the {which} control point has {:?}; control values {:?}", ev[k], want_b[k], &pts[..4]);
         ensure!(same(fe[k], want_b[k]), "end-not-exact", "fast_eval({t:?}) component {k} = {:?}, the {which} control point has {:?}; control values {:?}", fe[k], want_b[k], &pts[..4]);
